@@ -43,7 +43,8 @@ type lifeConn struct {
 	wakes             atomic.Int32 // accepted Wake requests on the open connection
 	wakeTraffic       atomic.Int32
 	closedInCallback  atomic.Bool
-	victim            atomic.Bool // closed by another connection's callback (loopCloseOther)
+	victim            atomic.Bool  // closed by another connection's callback (loopCloseOther)
+	backlog           atomic.Int32 // async-backlog shutdown: 1 = seed the backlog in the next callback, 3 = return Shutdown in the next callback
 	dupFds            []int
 }
 
@@ -57,6 +58,7 @@ type lifeScenario struct {
 	shutdownFrom  string   // which callback returns Shutdown ("" = none)
 	shutdownArmed atomic.Bool
 	shutdownFired atomic.Bool
+	backlogMode   bool
 	preArmed      sync.Map // peer key -> struct{}: bystander connections the harness itself closes at once
 	tickShutdown  atomic.Bool
 }
@@ -144,7 +146,30 @@ func (s *lifeScenario) onTraffic(cs *connState, c gnet.Conn) gnet.Action {
 	if isWake {
 		d.wakeTraffic.Add(1)
 	}
-	if s.shutdownFrom == "OnTraffic" && s.shutdownArmed.Load() && !s.shutdownFired.Swap(true) {
+	switch d.backlog.Load() {
+	case 1:
+		// more than 1024 high-priority requests pending on this loop: the low-priority request issued next (Wake or
+		// Close) has to travel through the low-priority queue, and the Shutdown its callback returns must still count
+		d.backlog.Store(2)
+		for k := 0; k < 1100; k++ {
+			_ = c.AsyncWrite([]byte("q"), nil)
+		}
+		if s.shutdownFrom == "OnClose" {
+			cs.armedLocal.Store(true)
+			_ = c.Close()
+		} else {
+			d.backlog.Store(3)
+			_ = c.Wake(nil)
+		}
+		s.key(s.c.class() + "|shutdown-through-low-priority-queue|" + s.shutdownFrom)
+		return gnet.None
+	case 3:
+		d.backlog.Store(4)
+		s.shutdownFired.Store(true)
+		s.armAll()
+		return gnet.Shutdown
+	}
+	if s.shutdownFrom == "OnTraffic" && !s.backlogMode && s.shutdownArmed.Load() && !s.shutdownFired.Swap(true) {
 		s.armAll()
 		return gnet.Shutdown
 	}
@@ -257,6 +282,9 @@ func (s *lifeScenario) onClose(cs *connState, c gnet.Conn, err error) gnet.Actio
 		s.key(s.c.class() + "|onclose-write|" + map[bool]string{true: "nil", false: "err"}[err == nil])
 	}
 	s.key(s.c.class() + "|close|" + d.plan + "|" + map[bool]string{true: "nil", false: "err"}[err == nil])
+	if s.backlogMode && d.backlog.Load() < 2 && !s.shutdownFired.Load() {
+		return gnet.None // async-backlog: only the connection closed through the low-priority queue asks for shutdown
+	}
 	if s.shutdownFrom == "OnClose" && s.shutdownArmed.Load() {
 		// every OnClose asks for shutdown from now on, also those delivered by the shutdown sweep itself
 		if !s.shutdownFired.Swap(true) {
@@ -362,6 +390,7 @@ type lifeOpts struct {
 func runLifeCase(c cfg, seed uint64, o lifeOpts, keys map[string]struct{}) (evals int64) {
 	r := vlib.NewRand(seed)
 	s := &lifeScenario{c: c, seed: seed, keys: keys}
+	s.backlogMode = o.moment == "async-backlog" && (o.shutdownFrom == "OnTraffic" || o.shutdownFrom == "OnClose")
 	if o.shutdownFrom == "OnOpen" || o.shutdownFrom == "OnTraffic" || o.shutdownFrom == "OnClose" || o.shutdownFrom == "OnTick" {
 		s.shutdownFrom = o.shutdownFrom
 	}
@@ -630,6 +659,18 @@ func runLifeCase(c cfg, seed uint64, o lifeOpts, keys map[string]struct{}) (eval
 		switch o.shutdownFrom {
 		case "Engine.Stop", "":
 		case "OnTraffic", "OnClose", "OnOpen":
+			if s.backlogMode {
+				// the request that leads to the Shutdown-returning callback is issued while > 1024 asynchronous writes
+				// are pending on the same loop
+				for _, cs := range mon.snapshot() {
+					if d, ok := cs.sc.(*lifeConn); ok && atomic.LoadInt32(&cs.state) == 1 && (d.plan == "quiet" || d.plan == "shutdown" || d.plan == "backpressure") {
+						d.backlog.Store(1)
+						_ = cs.c.Wake(nil)
+						break
+					}
+				}
+				break
+			}
 			// provoke the callback that will return Shutdown
 			for k := 0; k < 200 && !s.shutdownFired.Load(); k++ {
 				if conn, err := dialPeerPre(life.dialNet, life.dialAddr, &s.preArmed); err == nil {
@@ -823,6 +864,11 @@ func runLifeCase(c cfg, seed uint64, o lifeOpts, keys map[string]struct{}) (eval
 			if d1 == d2 {
 				res.Violate("C06 Run did not return after shutdown request source="+o.shutdownFrom+" moment="+o.moment, fmt.Sprintf("config %s: Run has not returned %.1fs after shutdown was requested and two goroutine dumps 2s apart are identical (deadlock)", c, time.Since(t0).Seconds()),
 					map[string]any{"config": c.String(), "events": mon.tail(40), "dump": trimDump(d2)})
+			} else if stuck, desc := loopsStuck(); stuck && !life.waitDone(time.Millisecond) {
+				// every event loop sits in the same blocking epoll_wait: nothing will ever carry the shutdown out
+				res.Violate("C06 Run did not return after shutdown request (loops idle) source="+o.shutdownFrom+" moment="+o.moment, fmt.Sprintf("config %s: shutdown was requested %.1fs ago (source %s), Run has not returned and %s", c, time.Since(t0).Seconds(), o.shutdownFrom, desc),
+					map[string]any{"config": c.String(), "events": mon.tail(40)})
+				res.Finish()
 			} else if vsys.Shimmed && cb1 == cb2 && bytes1 == bytes2 && calls2-calls1 > 20000 {
 				// livelock: the framework keeps issuing system calls (all failing or empty) while no callback runs and not a
 				// single byte moves - a state that cannot end by itself
